@@ -1,7 +1,8 @@
 import HotstuffModel.Proofs.Commit
 import HotstuffModel.Proofs.Reachable
+import HotstuffModel.Proofs.GlobalCommit
 /-!
-# C02 — Each node delivers committed blocks exactly once, in chain order (local part)
+# C02 — Each node delivers committed blocks exactly once, in chain order
 
 What ONE node guarantees on its own, for EVERY event list (any chain shape, any learning order):
 the genesis placeholder is never delivered; each call of `commit` delivers a parent-linked run of
@@ -10,9 +11,10 @@ stored blocks, oldest first, ending in the head of the 2-chain, every one above 
 block has round watermark+1, or its parent is at or below the watermark); the watermark only grows.
 That the attachment point IS the previously delivered block, and that rounds grow along the chain —
 hence no duplicates and no skipped block over the whole life of the node — needs agreement among
-the honest nodes (certified blocks extend each other: `HS.C01.agreement`, `Abs.certified_extends`).
-The composition of the two is not formalised yet; on the real code it is decided by the monitor of
-the cons/netsim engines (parent = previous delivery, rounds increase, no duplicates, no genesis).
+the honest nodes (certified blocks extend each other: `HS.C01.agreement`).  That composition is the
+second half of this file: `delivery_log_is_chain_from_genesis` and its corollaries, for every
+reachable state of the global model (any number of Byzantine nodes of total stake ≤ f, any schedule).
+On the real code the same is checked by the monitor of the cons/netsim engines.
 -/
 namespace HS.C02
 open HS Node
@@ -74,5 +76,66 @@ example :
     let s := run c (init c 2) [.msg (.propose b2), .msg (.propose b3), .msg (.propose b4)]
     s.hist.filter Out.isCommitOut = [.commit b2] ∧ s.lastCommitted = 2 := by
   decide
+
+/-! ## The whole life of a node (global model) -/
+
+/-- **C02.**  In every reachable state of the global model, the delivery log of every honest node,
+read oldest first, is its committed chain from genesis: the first delivered block's parent is the
+genesis placeholder, and each later block's parent is the block delivered immediately before it
+(`Linked`: `y.qc.hash = x.digest` for consecutive `x, y`). -/
+theorem delivery_log_is_chain_from_genesis (X : World) (G : GState) (hR : Reach X G)
+    (i : Nat) (hi : X.honest i) : ChainFromGenesis (commitsOf (G i).hist).reverse :=
+  (reach_goodLog X G hR i hi).1
+
+/-- The watermark `last_committed_round` is the round of the newest delivery (0 before the first). -/
+theorem watermark_is_last_delivery (X : World) (G : GState) (hR : Reach X G)
+    (i : Nat) (hi : X.honest i) :
+    (G i).lastCommitted = ((commitsOf (G i).hist).head?.map (·.round)).getD 0 :=
+  (reach_goodLog X G hR i hi).2
+
+/-- Rounds strictly increase along a parent-linked list of certified blocks … -/
+theorem linked_rounds_increase (X : World) (G : GState) (hR : Reach X G) :
+    ∀ (D : List Block), Linked D →
+      (∀ x ∈ D, Abs.Certified (absCtx X) (absHist X G) x.digest) →
+      D.Pairwise (fun x y => x.round < y.round) := by
+  intro D
+  induction D with
+  | nil => intro _ _; exact List.Pairwise.nil
+  | cons x D ih =>
+    intro hl hc
+    cases D with
+    | nil => exact List.pairwise_singleton _ _
+    | cons y D' =>
+      have hl' : y.qc.hash = x.digest ∧ Linked (y :: D') := hl
+      have ihp := ih hl'.2 (fun z hz => hc z (List.mem_cons_of_mem _ hz))
+      have hxy : x.round < y.round := by
+        have := (Abs.certified_parent (absCtx X) (absHist X G) Digest.zero (reach_localInv X G hR)
+          (hc y (by simp))).1
+        simp only [absHist, dParent_block, dRound_block, hl'.1] at this
+        simpa [Block.digest, dRound] using this
+      refine List.Pairwise.cons ?_ ihp
+      intro z hz
+      rcases List.mem_cons.mp hz with rfl | hz'
+      · exact hxy
+      · have := (List.pairwise_cons.mp ihp).1 z hz'
+        omega
+
+/-- … so no block is delivered twice and deliveries come in strictly increasing round order. -/
+theorem deliveries_strictly_increasing_no_duplicates (X : World) (G : GState) (hR : Reach X G)
+    (i : Nat) (hi : X.honest i) :
+    (commitsOf (G i).hist).reverse.Pairwise (fun x y => x.round < y.round) ∧
+    (commitsOf (G i).hist).Nodup := by
+  have hchain := delivery_log_is_chain_from_genesis X G hR i hi
+  have hl : Linked (commitsOf (G i).hist).reverse := by
+    cases h : (commitsOf (G i).hist).reverse with
+    | nil => trivial
+    | cons x l => rw [h] at hchain; exact hchain.2
+  have hp := linked_rounds_increase X G hR _ hl (by
+    intro x hx
+    exact delivered_is_certified X G hR i hi x (mem_commitsOf.mp (List.mem_reverse.mp hx)))
+  refine ⟨hp, ?_⟩
+  have : (commitsOf (G i).hist).reverse.Nodup :=
+    hp.imp (fun {a b} (h : a.round < b.round) => by intro e; subst e; omega)
+  exact (List.pairwise_reverse.mp this).imp (fun h => Ne.symm h)
 
 end HS.C02
